@@ -1,19 +1,23 @@
 META = dict(
     functions=['critic_markup.c: mmd_critic_tokenize_string, critic_parse_substring, accept_token, accept_token_tree, accept_token_tree_sub, reject_token, reject_token_tree, reject_token_tree_sub, mmd_critic_markup_accept/_reject(_range)',
                'token_pairs.c: token_pair_engine_new, token_pair_engine_add_pairing, token_pairs_match_pairs_inside_token, token_pair_mate', 'token.c (pool off), stack.c'],
-    stubs=['mmd_critic_tokenize_string -> the token chain the script dictates (marker tokens + plain payload tokens); the tokeniser glue has its own harness', 'token_pair_engine_new -> zero-initialised static engine (same tables; the real one memcpy-zeroes them, which defeats constant folding)', 'MMD6_VERIF_MAX_TOKEN_TYPES=20 (hook): CriticMarkup uses token types 1..17', 'd_string.c -> ds_model with erase (C19)'],
+    stubs=['mmd_critic_tokenize_string -> the token chain the script dictates (marker tokens + plain payload tokens); the tokeniser glue has its own harness', 'token_pair_engine_new -> zero-initialised static engine (same tables; the real one memcpy-zeroes them, which defeats constant folding)', 'MMD6_VERIF_MAX_TOKEN_TYPES=20 (hook): CriticMarkup uses token types 1..17', 'MMD6_VERIF_LARGE_STACK_THRESHOLD=0 (hook) in the *_shortcut harnesses: the large-stack short-circuit (1000 pending openers in the real build) is taken with one pending opener', 'd_string.c -> ds_model with erase (C19)'],
     assumptions=['edit scripts: every ordered pair (thorough: selected triples) of 13 item kinds (5 mark types, 3 nestings, stray closer/opener/divider, escaped brace); kinds and payload lengths are enumerated by the driver (one solver query each), payload bytes and accept/reject are symbolic',
                  'a stray opener is not followed by a real closer of its kind (it would legitimately pair)'],
     outside=['the Aho-Corasick automaton itself', 'writer-side accept/reject of inline pairs', 'CLI -a/-r == rendering of the accepted text'],
 )
 
-KINDS = ['plain', 'add', 'del', 'sub', 'com', 'hi', 'add_del', 'del_add', 'hi_add', 'stray_close', 'stray_open', 'esc_brace', 'stray_div']
+KINDS = ['plain', 'add', 'del', 'sub', 'com', 'hi', 'add_del', 'del_add', 'hi_add', 'stray_close', 'stray_open', 'esc_brace', 'stray_div',
+         'stray_sub_close', 'stray_sub_open', 'stray_add_open', 'stray_del_close', 'stray_hi_close', 'stray_com_open']
+# a stray opener followed by a real closer of its kind legitimately pairs up (it is then not a stray): such ordered pairs are skipped
+OPENER_PAIRS_WITH = {10: (2, 6, 7, 16), 14: (3, 13), 15: (1, 6, 7, 8, 9), 18: (4,)}
 
-def one(tier, ks, empty=0, plen=1):
+def one(tier, ks, empty=0, plen=1, thr=None):
     I = len(ks)
     d = dict(ITEMS=I, K0=ks[0], K1=ks[1], EMPTY=empty, PLEN=plen, DS_CAP=I * 17 + 4, MMD6_VERIF_MAX_TOKEN_TYPES=20)
     if I > 2: d['K2'] = ks[2]
-    nm = 'c12_' + '_'.join(KINDS[k] for k in ks) + ('_empty' if empty else '') + ('_len2' if plen == 2 else '')
+    if thr is not None: d['MMD6_VERIF_LARGE_STACK_THRESHOLD'] = thr
+    nm = 'c12_' + '_'.join(KINDS[k] for k in ks) + ('_empty' if empty else '') + ('_len2' if plen == 2 else '') + ('_shortcut' if thr is not None else '')
     return dict(name=nm, src='c12/script.c', defs=d, pool_off=True,
                 units=[dict(src='repo:critic_markup.c', remove=['mmd_critic_tokenize_string']), dict(src='repo:token_pairs.c', remove=['token_pair_engine_new', 'token_pair_engine_free']),
                        'repo:token.c', 'repo:stack.c', 'repo:object_pool.c', 'repo:char.c', 'common/ds_model.c'],
@@ -30,13 +34,21 @@ def harnesses(tier):
                    unwind=TN + 4, unwindset=['ac_trie_leftmost_longest_search.1:26', 'token_free:6', 'token_tree_free:6'], timeout=900, mem_gb=6, functional=True, replay=False,
                    bounds='every text of %d characters over the 10-letter marker alphabet, every sub-range (start, len)' % TN,
                    desc='mmd_critic_tokenize_string: search covers exactly the requested range; tokens contiguous from start'))
-    for a in range(13):
-        for b in range(13):
-            if a == 10 and b in (2, 6, 7):
-                continue                      # a stray "{--" followed by a real "--}" legitimately pairs up: not a stray
-            if a == 12 and b == 12:
+    NK = len(KINDS)
+    for a in range(NK):
+        for b in range(NK):
+            if b in OPENER_PAIRS_WITH.get(a, ()):
+                continue
+            if a >= 9 and b >= 9 and a == b:
                 continue
             hs.append(one(tier, (a, b)))
+    # the large-stack short-circuit of the pair matcher (kLargeStackThreshold, 1000 pending openers in the real build) made reachable with the
+    # hook MMD6_VERIF_LARGE_STACK_THRESHOLD=0: it must not change any result
+    for a in (1, 3, 6, 7, 8, 10, 15):
+        for b in (1, 2, 3, 6, 9, 16):
+            if b in OPENER_PAIRS_WITH.get(a, ()):
+                continue
+            hs.append(one(tier, (a, b), thr=0))
     for a in range(1, 9):
         for b in (0, 1, 3):
             hs.append(one(tier, (a, b), empty=15))
